@@ -37,7 +37,7 @@ Qed.
 Lemma read_line_loop_spec n : forall fuel i p cs acc, port_ok p -> Forall cp cs -> pending p = enc_all cs ->
   (i <= n)%nat -> fuel = (S n - i)%nat ->
   exists p', read_line_loop fuel i n p acc =
-             (match acc, cs with [], [] => None | _, _ => Some (rev acc ++ fst (spec_line (n - i) cs)) end, p') /\
+             (Ok (match acc, cs with [], [] => None | _, _ => Some (rev acc ++ fst (spec_line (n - i) cs)) end), p') /\
              port_ok p' /\ pending p' = enc_all (snd (spec_line (n - i) cs)).
 Proof.
   induction fuel as [|f IH]; intros i p cs acc OK F P LE FU; [lia|].
@@ -78,7 +78,7 @@ Qed.
     returned), at most n of them, or up to end of file; eof-object iff nothing at all is left; what stays
     pending is exactly the rest — for every width, every refill boundary, every schedule of read sizes *)
 Theorem read_line_spec n p cs : port_ok p -> Forall cp cs -> pending p = enc_all cs ->
-  exists p', read_line n p = (match cs with [] => None | _ => Some (fst (spec_line n cs)) end, p') /\
+  exists p', read_line n p = (Ok (match cs with [] => None | _ => Some (fst (spec_line n cs)) end), p') /\
              port_ok p' /\ pending p' = enc_all (snd (spec_line n cs)).
 Proof.
   intros OK F P. unfold read_line.
@@ -92,5 +92,5 @@ Example ex_read_line :
   let '(l2, p2) := read_line 1 p1 in
   let '(l3, p3) := read_line 100 p2 in
   let '(l4, _) := read_line 100 p3 in
-  (l1, l2, l3, l4) = (Some [955; 8364], Some [128512], Some [97], None).
+  (l1, l2, l3, l4) = (Ok (Some [955; 8364]), Ok (Some [128512]), Ok (Some [97]), Ok None).
 Proof. vm_compute. reflexivity. Qed.
